@@ -121,6 +121,7 @@ def resample(V, even, regime):
         st.update(n=n, x=x, dt=dt, tgt=tgt)
         return dict(asig=asig, target_dt=tgt, even=even)
     for out in V.run('eqsig.fns.time_step.resample_to_approx_dt', setup):
+        out.replay_info = dict(module='resample', even=even, regime=regime)
         n, dt, tgt = st['n'], st['dt'], st['tgt']
         tag = 'even=%s,%s' % (even, regime)
         if out.raised is not None:
@@ -134,9 +135,28 @@ def resample(V, even, regime):
         out.prove('one-resample-call', len(calls) == 1)
         if len(calls) != 1:
             continue
-        num = calls[0][1][1]
+        xarg, num = calls[0][1][0], calls[0][1][1]
+        # band-limited exactness is SciPy's contract for scipy.signal.resample(record, num): it applies only if the RECORD ITSELF (not a
+        # filtered / windowed / truncated copy) is what is resampled, and the result is handed on unchanged
+        from pyvc.arrays import is_arr
+        okx = is_arr(xarg) and len(xarg.shape) == 1
+        out.prove('the-record-itself-is-resampled/length', okx and T.seq(xarg.shape[0], n))
+        if okx:
+            for k in V.idx(0, n, 'kx'):
+                out.prove('the-record-itself-is-resampled/values', T.seq(xarg[k], st['x'][k]))
+            res = V.np.sp_resample(xarg, num)                    # the (hash-consed) result of that very call
+            vals = r.attrs['_values']
+            out.prove('returned-values-are-the-resampled-series/length', is_arr(vals) and T.seq(vals.shape[0], res.shape[0]))
+            if is_arr(vals):
+                for k in V.idx(0, res.shape[0], 'kr'):
+                    out.prove('returned-values-are-the-resampled-series/values', T.seq(vals[k], res[k]))
         # K2 (known finding): with even=True the count is rounded down to an even number but the step still says dt/factor
         out.prove('sample-count-times-new-step-is-the-record-duration[%s]' % tag, T.seq(T.smul(num, new_dt), T.smul(n, dt)))
         if even:
             out.prove('length-even', T.seq(T.smod(num, 2), 0))
         out.unchanged('x', st['x'])
+
+
+from pyvc.api import int_variant
+int_variant('C14', 'interp_array_to_approx_dt', ['x'])
+int_variant('C14', 'interp_to_approx_dt', ['x'])
